@@ -333,6 +333,7 @@ Section ML.
         remember (ml_advance c s a b) as c1 eqn:Ec1.
         pose proof (locate_start_le (lt_byte (c_lt cfg)) s a b ltac:(lia)) as Hls.
         destruct (locate (lt_byte (c_lt cfg)) s a b) as [ls le]. cbn [fst] in Hls.
+        destruct (Nat.leb le ls); [cbn [ml_step_ok' ml_core ml_inv ml_last]; split; [exact Hadv|exact Hinv]|].
         destruct (ml_last m) as [[pls ple]|].
         * destruct (Nat.leb ls ple).
           -- cbn [ml_step_ok' ml_core ml_inv ml_last]. split; [exact Hadv|exact Hinv].
